@@ -148,6 +148,21 @@ def main(tier, seed, replay=None):
                 stats["unsat"] += 1
             except claripy.errors.ClaripyError as ex:
                 stats["solver_error:" + type(ex).__name__] += 1
+        # ---- histories: is_true / is_false interleaved with adds and (exhausting) evaluations, all solver classes ----
+        if not fail:
+            import solverhist
+            facs = [("Solver", lambda: claripy.Solver()), ("SolverCacheless", lambda: claripy.SolverCacheless()),
+                    ("SolverComposite", lambda: claripy.SolverComposite())]
+            hf = solverhist.run_histories(claripy, drv, rng, facs, 60 if tier == "quick" else 3000, 14, report=rep, tag="c10h",
+                                          ops=["add", "add", "eval_bool", "eval_bool", "eval", "is_true", "is_true", "is_true",
+                                               "satisfiable", "branch", "downsize"])
+            if hf and ("is_true" in hf.get("what", "") or "is_false" in hf.get("what", "")):
+                fail = hf
+            if not fail:
+                sf = solverhist.cache_scenarios(claripy, drv, rng, facs, 120 if tier == "quick" else 3000, report=rep, bool_only=True)
+                if sf and ("is_true" in sf.get("what", "") or "is_false" in sf.get("what", "")):
+                    fail = sf
+            stats["histories"] += 200 if tier == "quick" else 3000
     rep.cov["rule"] = ("Boolean expressions from the C01 rule templates and random programs: every True answer of claripy.is_true/"
                        "is_false/Bool.is_true/Bool.is_false checked against the SMT-LIB value of the written tree on exhaustive "
                        "(<=12 bits) or 24 assignments; solver.is_true/is_false of 5 frontend classes on random 2-4-bit constraint sets "
